@@ -3,6 +3,7 @@ import ast
 import itertools
 
 from ..core import astutil as A
+from ..core import match as M
 from ..core.dtable import Walker
 from ..core.model import dotted
 
@@ -74,10 +75,11 @@ def run(ctx):
         rets = A.returns(f.node)
         ok = len(rets) == 1 and isinstance(rets[0].value, ast.Call) and call_shape(rets[0].value) == (callee, args)
         ctx.check("R1", f, ok, "shape", f"{q} returns {callee}({', '.join(args)})", f"{q} returns `{A.unparse(rets[0].value) if rets else None}`; expected {callee}({', '.join(args)})", node=f.node)
-    for q, want in (("merge_plan.just_livefs_dbs", "(r for r in dbs if r.livefs)"), ("merge_plan.just_nonlivefs_dbs", "(r for r in dbs if not r.livefs)")):
+    # the comprehension variable is a local: bind it by role ($r), the parameter `dbs` and the attribute stay literal
+    for q, want in (("merge_plan.just_livefs_dbs", "($r for $r in dbs if $r.livefs)"), ("merge_plan.just_nonlivefs_dbs", "($r for $r in dbs if not $r.livefs)")):
         f = P.func(pmod, q)
         rets = A.returns(f.node)
-        ctx.check("R1", f, len(rets) == 1 and A.unparse(rets[0].value) == want, "filter", f"{q} keeps the given order and filters on livefs", f"{q} returns `{A.unparse(rets[0].value) if rets else None}`")
+        ctx.check("R1", f, len(rets) == 1 and rets[0].value is not None and M.pat(want).matches(rets[0].value) is not None, "filter", f"{q} keeps the given order and filters on livefs", f"{q} returns `{A.unparse(rets[0].value) if rets else None}`")
     msr = P.func("pkgcore.repository.misc", "multiplex_sorting_repo.itermatch")
     calls = [c for c in A.calls(msr.node) if dotted(c.func) == "iter_sort"]
     ctx.check("R1", msr, len(calls) == 1 and A.unparse(calls[0].args[0]) == "self.__sorter__" and any(isinstance(a, ast.Starred) for a in calls[0].args),
